@@ -952,9 +952,7 @@ class Model:
         model: :class:`.Model`
             A new instance of the model with all the interaction terms computed.
         """
-        if self == other:
-            return self
-        elif isinstance(other, type(self)):
+        if isinstance(other, type(self)):
             if len(other.common_terms) == 1:
                 components = other.common_terms[0].components
                 if len(components) == 1 and isinstance(components, (int, float)):
